@@ -412,6 +412,11 @@ func (r *Runtime) createHttpRequest(operation *runtime.ClientOperation) (*reques
 		}
 	}
 
+	// the registries are keyed by the bare media type: drop parameters such as charset
+	if mt, _, err := mime.ParseMediaType(cmt); err == nil {
+		cmt = mt
+	}
+
 	if _, ok := r.Producers[cmt]; !ok && cmt != runtime.MultipartFormMime && cmt != runtime.URLencodedFormMime {
 		return nil, nil, fmt.Errorf("none of producers: %v registered. try %s", r.Producers, cmt)
 	}
